@@ -46,26 +46,36 @@ def runBlock (installId : Nat) (o : Outcome) : HSt → List HStmtG → HSt × Fl
 def catches (cls : String) (baseOnly : Bool) : Bool :=
   cls == "BaseException" || (cls == "Exception" && !baseOnly)
 
-def runTry (installId : Nat) (o : Outcome) (s : HSt) : HSt × Flow :=
-  let r := runBlock installId o s hookTryG
+/-- a `try: B  except …: H  finally: F` statement -/
+def runTryWith (tryB : List HStmtG) (handlers : List (String × List HStmtG)) (finalB : List HStmtG)
+    (installId : Nat) (o : Outcome) (s : HSt) : HSt × Flow :=
+  let r := runBlock installId o s tryB
   let r := match r with
     | (s1, .raised b) =>
-      (match hookHandlersG.find? (fun (h : String × List HStmtG) => catches h.1 b) with
+      (match handlers.find? (fun (h : String × List HStmtG) => catches h.1 b) with
        | some h => runBlock installId o s1 h.2
        | none => (s1, .raised b))
     | other => other
   -- `finally` runs on every path; an exception or return in flight continues afterwards
-  let f := runBlock installId o r.1 hookFinallyG
+  let f := runBlock installId o r.1 finalB
   (f.1, match f.2 with | .running => r.2 | fl => fl)
+
+def runTry (installId : Nat) (o : Outcome) (s : HSt) : HSt × Flow :=
+  runTryWith hookTryG hookHandlersG hookFinallyG installId o s
 
 /-- the hook discipline of one call of `solve_scipy` started with hook `h0` -/
 def hookAfter (installId h0 : Nat) (o : Outcome) : Nat :=
   let pre := runBlock installId o ⟨h0, none⟩ hookPreG
   (runTry installId o pre.1).1.hook
 
+/-- `with increased_recursion_limit(n): <body>` started with limit `l0`; `o` = what the body does -/
+def limitAfter (n l0 : Nat) (o : Outcome) : Nat :=
+  let pre := runBlock n o ⟨l0, none⟩ limitPreG
+  (runTryWith limitTryG limitHandlersG limitFinallyG n o pre.1).1.hook
+
 /-- **every exit path of `solve_scipy` leaves `warnings.showwarning` as this call found it** -/
 theorem hook_restored_of_source_shape (installId h0 : Nat) (o : Outcome) : hookAfter installId h0 o = h0 := by
-  cases o <;> simp [hookAfter, runTry, runBlock, exec, hookPreG, hookTryG, hookHandlersG, hookFinallyG, catches]
+  cases o <;> simp [hookAfter, runTry, runBlock, exec, hookPreG, hookTryG, hookHandlersG, hookFinallyG, catches, runTryWith]
 
 /-- while the solver runs, optyx's handler is installed (the warning filter of the property is active) -/
 theorem hook_installed_during_call (installId h0 : Nat) :
@@ -77,7 +87,21 @@ theorem flow_of_source_shape (installId h0 : Nat) :
     (runTry installId .raisesBaseOnly (runBlock installId .raisesBaseOnly ⟨h0, none⟩ hookPreG).1).2 = .raised true
     ∧ (runTry installId .raisesException (runBlock installId .raisesException ⟨h0, none⟩ hookPreG).1).2 = .returned
     ∧ (runTry installId .returns (runBlock installId .returns ⟨h0, none⟩ hookPreG).1).2 = .running := by
-  simp [runTry, runBlock, exec, hookPreG, hookTryG, hookHandlersG, hookFinallyG, catches]
+  simp [runTry, runTryWith, runBlock, exec, hookPreG, hookTryG, hookHandlersG, hookFinallyG, catches]
+
+/-- **`increased_recursion_limit` restores the interpreter's recursion limit on every exit path of its block** (normal exit,
+    an `Exception`, a BaseException-only class such as KeyboardInterrupt), and the block runs under the requested limit -/
+theorem limit_restored_of_source_shape (n l0 : Nat) (o : Outcome) : limitAfter n l0 o = l0 := by
+  cases o <;> simp [limitAfter, runTryWith, runBlock, exec, limitPreG, limitTryG, limitHandlersG, limitFinallyG, catches]
+
+theorem limit_raised_inside_block (n l0 : Nat) :
+    (runBlock n .returns (runBlock n .returns ⟨l0, none⟩ limitPreG).1 (limitTryG.takeWhile (· != .solverCall))).1.hook = n := rfl
+
+/-- these two functions are the ONLY places of the package that write interpreter-wide state (recursion limit, warning hook,
+    warning filters, NumPy error state, excepthook): a new site anywhere in `src/optyx` changes this list -/
+theorem globalStateSites_spec :
+    globalStateSitesG = ["core/autodiff.py:increased_recursion_limit:sys.setrecursionlimit",
+      "solvers/scipy_solver.py:solve_scipy:warnings.showwarning ="] := by decide
 
 /-- the semantics is not vacuous: a shape that restores a hook captured elsewhere (`saved = none` in this activation) fails -/
 example : (runBlock 7 .returns ⟨3, none⟩ [.install, .solverCall, .restore]).1.hook ≠ 3 := by decide
